@@ -365,7 +365,10 @@ func (x *Exec) modBlocks(st *State, fn *ssa.Function, blocks map[*ssa.BasicBlock
 				m.heapMod(dn, "(Array "+U.sortOf(mt.Key())+" Bool)").Alloc = true
 				m.heapMod(vn, "(Array "+U.sortOf(mt.Key())+" "+U.sortOf(mt.Elem())+")").Alloc = true
 			case *ssa.Next:
-				// iterator state is a local cell handled by rangeNext
+				// the iterator's ghost state advances
+				if v, ok := resolve(in.Iter); ok && v.A != nil && v.A.ObjID > 0 {
+					m.Cells[v.A.ObjID] = map[int]bool{-1: true}
+				}
 			case ssa.CallInstruction:
 				x.modCall(st, in, resolve, m, depth)
 			}
@@ -678,6 +681,12 @@ func elemSortOfHeap(s string) string { return s }
 
 func (x *Exec) havocObj(st *State, o *Obj, fields map[int]bool) {
 	U := x.U()
+	if _, isIter := o.Alloc.(*ssa.Range); isIter {
+		// iterator: the position / the set of keys produced so far
+		v := o.Vals[1]
+		o.Vals[1] = Val{S: v.S, T: st.fresh(fmt.Sprintf("iter%d", o.ID), v.S)}
+		return
+	}
 	for i := range o.Vals {
 		if !(fields[-1] || fields[i]) {
 			continue
@@ -760,6 +769,21 @@ func (x *Exec) loopEntry(st *State, li *LoopInfo) bool {
 	// phis take their entry values for the entry check
 	x.bindPhis(st, li.Header, false)
 	ev = x.loopEnv(st)
+	// snapshot for atloop(k, e)
+	snap := &loopSnapshot{heaps: map[string]string{}, vars: map[string]Val{}, objs: map[int]*Obj{}}
+	for k, v := range st.heaps {
+		snap.heaps[k] = v
+	}
+	for k, v := range ev.vars {
+		snap.vars[k] = v
+	}
+	for k, o := range st.objs {
+		snap.objs[k] = o.clone()
+	}
+	if fr.loopSnap == nil {
+		fr.loopSnap = map[int]*loopSnapshot{}
+	}
+	fr.loopSnap[li.Ord] = snap
 	for i, inv := range li.LC.Invariants {
 		st.check(fmt.Sprintf("%s/inv/loop%d/%s/entry", x.key, li.Ord, clauseName(inv, i)), ev.evalClause(inv), "invariant on entry")
 	}
@@ -776,7 +800,7 @@ func (x *Exec) loopEntry(st *State, li *LoopInfo) bool {
 	st.guard(fmt.Sprintf("%s/vacuity/loop%d", x.key, li.Ord), "invariant satisfiable at loop head")
 	if li.LC.Decreases != nil {
 		fr.variant[li.Ord] = ev.evalTerms(*li.LC.Decreases)
-	} else {
+	} else if !x.isMapRangeLoop(li) {
 		limitf("%s: loop %d has no decreases clause", x.key, li.Ord)
 	}
 	return true
@@ -860,6 +884,19 @@ func (x *Exec) storedIn(blocks map[*ssa.BasicBlock]bool, al *ssa.Alloc) bool {
 	for b := range blocks {
 		for _, in := range b.Instrs {
 			if s, ok := in.(*ssa.Store); ok && s.Addr == al {
+				return true
+			}
+		}
+	}
+	return false
+}
+
+// isMapRangeLoop: the loop is a range over a map; it terminates because a map is finite and
+// every key is produced once (assumption about the Go runtime, listed in the evidence).
+func (x *Exec) isMapRangeLoop(li *LoopInfo) bool {
+	for b := range li.Blocks {
+		for _, in := range b.Instrs {
+			if n, ok := in.(*ssa.Next); ok && !n.IsString {
 				return true
 			}
 		}
